@@ -246,6 +246,11 @@ def c03(tier, seed):
     single = [m for m in fam if m[0].endswith("w1")]
     for name, schema in (rng.sample(single, 140) + rng.sample(fam, 40) if q else fam):
         gs.append((name, {"kind": "json", "schema": schema}))
+    # intersections of string constants in optional / required positions: a disjoint one has to be dropped or refused at
+    # construction; compiled into a terminal that can never match it is a dead end right after the key
+    afam = [m for m in jsgen.allof_family() if ":str" in m[0]]
+    for name, schema, _texts in (rng.sample(afam, 50) if q else afam):
+        gs.append((name, {"kind": "json", "schema": schema}))
     parts = [
         ("C03", "regex", exact.regex_job("C03", seed, 24 if q else 1200, byte_complete=True), "Trace_Regex", None),
         ("C03b", "cfg", exact.cfg_job("C03", seed, 24 if q else 1200, byte_complete=True), "Trace_Cfg", None),
